@@ -11,9 +11,9 @@ rm -rf "$W"; mkdir -p "$W"
 fails=0
 m() {  # name  file  sed-expression | DELETE
   local n="$1" f="$2" e="$3" d="$W/$1"
-  mkdir -p "$d/repo/examples" "$d/repo/fuzz/fuzz_targets" "$d/repo/tests" "$d/repo/etc/correctness/test-parse-golang" "$d/out"
+  mkdir -p "$d/repo/examples" "$d/repo/fuzz/fuzz_targets" "$d/repo/tests" "$d/repo/etc/correctness/test-parse-golang" "$d/repo/etc/correctness/rng-tests" "$d/repo/etc/correctness/test-parse-random" "$d/repo/etc/correctness/test-parse-unittests" "$d/out"
   cp -r /repo/src "$d/repo/src"; cp /repo/examples/simple.rs "$d/repo/examples/"; cp /repo/fuzz/fuzz_targets/parse.rs "$d/repo/fuzz/fuzz_targets/"
-  cp /repo/tests/integration_tests.rs "$d/repo/tests/"; cp /repo/etc/correctness/test-parse-golang/main.rs "$d/repo/etc/correctness/test-parse-golang/"
+  cp /repo/tests/integration_tests.rs "$d/repo/tests/"; cp /repo/etc/correctness/test-parse-golang/main.rs "$d/repo/etc/correctness/test-parse-golang/"; cp /repo/etc/correctness/rng-tests/_common.rs "$d/repo/etc/correctness/rng-tests/"; cp /repo/etc/correctness/test-parse-random/_common.rs "$d/repo/etc/correctness/test-parse-random/"; cp /repo/etc/correctness/test-parse-unittests/main.rs "$d/repo/etc/correctness/test-parse-unittests/"
   if [ "$e" = DELETE ]; then rm "$d/repo/$f"; else sed -i "$e" "$d/repo/$f"; if cmp -s "$d/repo/$f" "/repo/$f"; then echo "[$n] MUTATION DID NOT APPLY"; fails=$((fails+1)); return; fi; fi
   timeout 120 "$BIN" "$d/repo/src" "$d/out" > "$d/log" 2>&1; rc=$?
   local changed=""
@@ -48,9 +48,9 @@ m f11 src/lib.rs 's/pub use self::parse::parse_float;/pub use self::parse::parse
 # ---- gen/SrcStackVec.v (compared with out/SrcStackVec.v: run `run.sh out` first)
 sv() {  # name  file  python-edit  expectation(changed|omitted)
   local n="$1" f="$2" e="$3" want="$4" d="$W/$1" o="${5:-SrcStackVec}"
-  mkdir -p "$d/repo/examples" "$d/repo/fuzz/fuzz_targets" "$d/repo/tests" "$d/repo/etc/correctness/test-parse-golang" "$d/out"
+  mkdir -p "$d/repo/examples" "$d/repo/fuzz/fuzz_targets" "$d/repo/tests" "$d/repo/etc/correctness/test-parse-golang" "$d/repo/etc/correctness/rng-tests" "$d/repo/etc/correctness/test-parse-random" "$d/repo/etc/correctness/test-parse-unittests" "$d/out"
   cp -r /repo/src "$d/repo/src"; cp /repo/examples/simple.rs "$d/repo/examples/"; cp /repo/fuzz/fuzz_targets/parse.rs "$d/repo/fuzz/fuzz_targets/"
-  cp /repo/tests/integration_tests.rs "$d/repo/tests/"; cp /repo/etc/correctness/test-parse-golang/main.rs "$d/repo/etc/correctness/test-parse-golang/"
+  cp /repo/tests/integration_tests.rs "$d/repo/tests/"; cp /repo/etc/correctness/test-parse-golang/main.rs "$d/repo/etc/correctness/test-parse-golang/"; cp /repo/etc/correctness/rng-tests/_common.rs "$d/repo/etc/correctness/rng-tests/"; cp /repo/etc/correctness/test-parse-random/_common.rs "$d/repo/etc/correctness/test-parse-random/"; cp /repo/etc/correctness/test-parse-unittests/main.rs "$d/repo/etc/correctness/test-parse-unittests/"
   python3 - "$d/repo/$f" "$e" <<'PY' || { echo "[$n] EDIT FAILED"; fails=$((fails+1)); return; }
 import sys
 p, edit = sys.argv[1], sys.argv[2]
@@ -86,12 +86,40 @@ sv h5 src/heapvec.rs 's = s.replace("        self.data.pop()", "        self.dat
 sv h6 src/heapvec.rs 's = s.replace("        self.data.capacity()", "        self.data.len()", 1)' changed SrcHeapVec
 sv h7 src/heapvec.rs 's = s.replace("    data: Vec<bigint::Limb>,", "    data: Vec<u32>,", 1)' omitted SrcHeapVec
 sv h8 src/heapvec.rs 's = s.replace("        debug_assert!(len <= self.capacity());", "        debug_assert!(len < self.capacity());", 1)' changed SrcHeapVec
+# ---- stage 10: the rng / rand / unit front-ends (compared with out/), rule 12 pin
+sv r1 etc/correctness/rng-tests/_common.rs 's = s.replace("None => return i32::max_value(),", "None => return i32::min_value(),", 1)' changed SrcFrontRng
+sv r2 etc/correctness/test-parse-random/_common.rs 's = s.replace("None => return i32::max_value(),", "None => return i32::min_value(),", 1)' changed SrcFrontRand
+sv r3 etc/correctness/test-parse-unittests/main.rs 's = s.replace("None => return i32::max_value(),", "None => return i32::min_value(),", 1)' changed SrcFrontUnit
+# non-target items may change freely ..
+sv r4 etc/correctness/test-parse-unittests/main.rs 's = s.replace("fn main() {", "#[derive(Clone)]\nstruct Extra { x: u8 }\nimpl Extra { fn len(&self) -> usize { self.x as usize } }\nfn main() {\n    let _e = Extra { x: 1 }.len();", 1)' same SrcFrontUnit
+# .. unless they could shadow a name the targets use
+sv r5 etc/correctness/test-parse-unittests/main.rs 's = s + "\n#[allow(non_snake_case)]\nfn Some<T>(x: T) -> Option<T> { None }\n"' omitted SrcFrontUnit
+sv r6 etc/correctness/test-parse-random/_common.rs 's = s.replace("use std::io;", "use std::io;\nuse std::cmp::*;", 1)' omitted SrcFrontRand
+sv r7 etc/correctness/rng-tests/_common.rs 's = s + "\n#[allow(non_upper_case_globals)]\nconst c: u8 = 48;\n"' omitted SrcFrontRng
+sv r8 etc/correctness/test-parse-unittests/main.rs 's = s.replace("#[inline]\nfn is_digit(c: u8) -> bool {", "#[inline]\n#[cfg(any())]\nfn is_digit(c: u8) -> bool {\n    false\n}\n#[inline]\nfn is_digit(c: u8) -> bool {", 1)' omitted SrcFrontUnit
+sv r9 etc/correctness/test-parse-random/_common.rs 's = s + "\nmod minimal_lexical { pub fn parse_float() {} }\n"' omitted SrcFrontRand
+# rule 12: nightly-gated statements are pinned
+sv n2 src/lemire.rs 's = s.replace("    let fp_zero = ExtendedFloat {", "    #[cfg(feature = \"nightly\")]\n    let q = q + 1;\n    let fp_zero = ExtendedFloat {", 1)' omitted Src
+nightly_fatal() {
+  local d="$W/n1"; mkdir -p "$d/repo" "$d/out"; cp -r /repo/src "$d/repo/src"
+  python3 - "$d/repo/src/number.rs" <<'PY'
+import sys
+p=sys.argv[1]; s=open(p).read()
+a="            let max_exponent = F::MAX_EXPONENT_FAST_PATH;"
+assert s.count(a)==1
+s=s.replace(a, a+"\n            #[cfg(feature = \"nightly\")]\n            let max_exponent = F::MAX_EXPONENT_DISGUISED_FAST_PATH;")
+open(p,"w").write(s)
+PY
+  timeout 120 "$BIN" "$d/repo/src" "$d/out" > "$d/log" 2>&1; rc=$?
+  if [ $rc -eq 2 ]; then echo "[n1] exit 2: $(grep -m1 ERROR "$d/log" | cut -c1-160)"; else echo "[n1] FAILED (exit $rc)"; fails=$((fails+1)); fi
+}
+nightly_fatal
 # ---- C-PRIM: the pinned primitives of num.rs (rule 10): every edit must be exit 2
 pin() {  # name  python-edit
   local n="$1" e="$2" d="$W/$1"
-  mkdir -p "$d/repo/examples" "$d/repo/fuzz/fuzz_targets" "$d/repo/tests" "$d/repo/etc/correctness/test-parse-golang" "$d/out"
+  mkdir -p "$d/repo/examples" "$d/repo/fuzz/fuzz_targets" "$d/repo/tests" "$d/repo/etc/correctness/test-parse-golang" "$d/repo/etc/correctness/rng-tests" "$d/repo/etc/correctness/test-parse-random" "$d/repo/etc/correctness/test-parse-unittests" "$d/out"
   cp -r /repo/src "$d/repo/src"; cp /repo/examples/simple.rs "$d/repo/examples/"; cp /repo/fuzz/fuzz_targets/parse.rs "$d/repo/fuzz/fuzz_targets/"
-  cp /repo/tests/integration_tests.rs "$d/repo/tests/"; cp /repo/etc/correctness/test-parse-golang/main.rs "$d/repo/etc/correctness/test-parse-golang/"
+  cp /repo/tests/integration_tests.rs "$d/repo/tests/"; cp /repo/etc/correctness/test-parse-golang/main.rs "$d/repo/etc/correctness/test-parse-golang/"; cp /repo/etc/correctness/rng-tests/_common.rs "$d/repo/etc/correctness/rng-tests/"; cp /repo/etc/correctness/test-parse-random/_common.rs "$d/repo/etc/correctness/test-parse-random/"; cp /repo/etc/correctness/test-parse-unittests/main.rs "$d/repo/etc/correctness/test-parse-unittests/"
   python3 - "$d/repo/src/num.rs" "$e" <<'PY' || { echo "[$n] EDIT FAILED"; fails=$((fails+1)); return; }
 import sys
 p, edit = sys.argv[1], sys.argv[2]
